@@ -426,6 +426,30 @@ pub fn replay_case(
         *st.by_edit.entry(e.k.clone()).or_insert(0) += toks.len();
     }
     if !case.edits.is_empty() {
+        // strings that are the authentic token up to the tolerated differences (an added empty footer
+        // segment, a re-encoded ECDSA signature): a chain of concrete edits may arrive there by chance
+        // (flip a bit, add '.', flip it back) although the abstract chain does not
+        let mut tolerated: Vec<String> = vec![tok.clone()];
+        if pr.v == 3 && pr.public {
+            if let Some(p) = Parts::parse(&tok) {
+                if let Some(d) = unb64(&p.payload) {
+                    if d.len() >= 96 {
+                        let n = d.len();
+                        let mut m = d[..n - 48].to_vec();
+                        m.extend(p384_negate(&d[n - 48..]));
+                        tolerated.push(p.with_payload_bytes(&m));
+                    }
+                }
+            }
+        }
+        for t in tolerated.clone() {
+            if t.split('.').count() == 3 {
+                tolerated.push(format!("{}.", t));
+            }
+        }
+        if !case.tolerated {
+            toks.retain(|t| !tolerated.contains(t));
+        }
         toks.retain(|t| *t != tok && !others.values().any(|o| o == t));
         if toks.len() > cfg.max_tokens {
             // deterministic thinning that keeps the first and last elements
